@@ -44,10 +44,30 @@ def max_rounding_increment(io):
     io.obligations("C03.max_increment")
 
 
+def add_date_any_duration(io, overflow):
+    """AddISODate with every duration Duration::new admits (|years|,|months|,|weeks| < 2^32, |days| <= 1.05e11):
+    PlainDate::add / PlainDateTime::add / PlainYearMonth::add all funnel into IsoDate::add_date_duration"""
+    from .c04 import any_date, date_duration
+    y, m, d = any_date(io)
+    lim = (1 << 32) - 1
+    yrs = io.flt("years", -lim, lim)
+    mos = io.flt("months", -lim, lim)
+    wks = io.flt("weeks", -lim, lim)
+    dys = io.flt("days", -104_249_991_374, 104_249_991_374)
+    ov = symex.Enum(overflow, {overflow: []}, "ArithmeticOverflow")
+    io.call(("IsoDate", None, "add_date_duration"), [symex.Agg([y, m, d]), io.ref(date_duration(yrs, mos, wks, dys)), ov],
+            native=("iso_date_add_date_duration", ("result", ("agg", ["i32", "u8", "u8"])),
+                    [y, m, d, yrs, mos, wks, dys, symex.Int(overflow, "u8")]))
+    io.witness("C03.add_date.reach")
+    io.obligations("C03.add_date")
+
+
 def jobs(tier, seed):
     return [
         ("date_new_any_year[overflow=0]", date_new_any_year, {"overflow": 0}, None),
         ("date_new_any_year[overflow=1]", date_new_any_year, {"overflow": 1}, None),
         ("from_epoch_nanos", from_epoch_nanos, {}, None),
         ("max_rounding_increment", max_rounding_increment, {}, None),
+        ("add_date_any_duration[overflow=0]", add_date_any_duration, {"overflow": 0}, None),
+        ("add_date_any_duration[overflow=1]", add_date_any_duration, {"overflow": 1}, None),
     ]
